@@ -278,6 +278,9 @@ end""", ['s', 'a']),
 ("init_twice_const", "x = 0\ny = 5\ny = x + 1\nz = 0\nwhile true:\n    x = x + 1\n    z = z + y\nend", ["z", "y", "x"]),
 ("init_reassign_between", "x = 0\ny = 5\nu = y + x\ny = 7\nz = 0\nwhile true:\n    x = x + 1\n    z = z + u + y\nend", ["z", "y", "u"]),
 ("dice_sum_toggle", "t = 0\nwins = 0\nwhile true:\n    d1 = DiscreteUniform(1, 6)\n    d2 = DiscreteUniform(1, 6)\n    if d1 + d2 + t == 8:\n        wins = wins + 1\n    end\n    t = 1 - t\nend", ["wins", "t"]),      # 36 raw combinations, 11 distinct sums: must stay finite-typed
+("elif_assigns_earlier_cond_var", "x = 0\ny = 0\nz = 0\nc = 0\nwhile true:\n    c = 1 {1/2} 0\n    if x == 1:\n        y = y + 1\n    elif c == 1:\n        x = 1\n        z = z + 2\n    else:\n        z = z + 1\n    end\nend", ["z", "y", "x"]),      # a later branch assigns a variable of an EARLIER condition, then assigns again
+("categorical_zero_prob", "x = 0\ny = 0\nwhile true:\n    x = Categorical(1/2, 0, 1/2)\n    y = x*x\nend", ["y", "x"]),      # a zero probability in a non-last position: the support must keep the index 2
+("simult_const_first", "x = 0\ny = 0\ns = 0\nwhile true:\n    b = Bernoulli(1/2)\n    if b == 1:\n        x, y = 0, x\n    else:\n        x = x + 1\n    end\n    s = s + y\nend", ["y", "x", "s"]),      # simultaneous assignment: constant first, then a read of the overwritten variable
 ("d18_uninit_under_guard", """x = 3
 c = 0
 while c == 1:
